@@ -19,6 +19,7 @@ RULE = (
     "callable). Oracle: (1) canary call log and tripwires stay empty, (2) the expression must raise, (3) nothing is "
     "invoked before the refusal, (4) observe(record) unchanged. Benign whitelisted calls in the same contexts must be "
     "accepted. Non-trivial = every hostile case; distinct by source."
+    " Also: callables handed to every helper / constructor as an argument (must not be invoked), double-underscore names computed at run time or spelled with syntax the language does not have (subscripts, conditionals, f-strings, comprehensions), after a per-process warm-up that calls every whitelisted name legitimately."
 )
 ASSUMPTIONS = [
     "a call is legitimate iff its target is a name / dotted name that, in the namespace the matcher starts with, is "
